@@ -49,6 +49,10 @@ CLAIMED = {
    technique="keyword-set extraction of the forced/avoid break predicates and of the sibling-resolution choice table (AST + constants) compared with the CSS Fragmentation sets + producer/consumer vocabulary agreement + division guard on the :nth() page arithmetic",
    text="Thin: decides that the forced and avoid break vocabularies are the CSS Fragmentation sets (column variants only in columns), that every break value the validators emit is classified, that forced beats avoid beats auto between siblings, that :nth() page matching never divides by zero, and that the box-edge sums of the fragmentation code use consistent sides. Page geometry, actual break positions, orphans/widows and blank-page insertion are not decided.",
    ref="4 C12"),
+ "C13": dict(
+   technique="SSA pattern rules on the grid slot assignment of wrapTable (loop cursor provenance, advance by colspan, rowspan clamp, occupied-column marking) + constant lower bounds of the span attributes + sibling symmetry, box-edge sums and argument/parameter name agreement on the table layout code",
+   text="Thin: decides that a cell spans at least one column, that the slot assignment gives each cell the first column free of row-spanning cells, advances by the colspan, clamps the rowspan to the row group and marks exactly the cell's columns in the spanned rows (so two cells never receive the same slot), and that the table layout code is side-consistent. Column width distribution, row heights, border-spacing and every equality between cell edges are numerical relations between runtime values and are not decided.",
+   ref="12.6"),
  "C14": dict(
    technique="typestate analysis of the backend's current path over SSA (states Empty/NonEmpty, per-entry-state function summaries to a fixpoint, closures entered at their OnNewStack site, CHA for interface calls, non-empty range loops, case split on enum parameters from call-site constant sets) + loop/dominance rules on the page protocol + path-condition guards on link resolution + provenance of metadata and font values",
    text="Decides structural necessary conditions of a well-formed drawing: (R1) every Paint/Clip of the drawing code is reached only with a path under construction (24 sites decided, 2 reasoned float-equality sites, 2 reproduced defects recorded as known findings); (R2) one AddPage per page in order and one CreateAnchors after the loop fed by resolveLinks; (R3) anchors are defined once (first id wins) and dangling internal links are dropped; (R4) each metadata field reaches its own backend setter from its own <meta>/<title>; (R5) text is drawn only from CreateFirstLine results whose fonts were registered by AddFont. Finiteness of numbers (NaN from degenerate sizes or zoom 0), the bookmark outline, per-canvas path separation and the order of graphic-state calls are not decided.",
@@ -81,7 +85,6 @@ CLAIMED = {
 
 NOT_APPLICABLE = {
  "C02": "conservation of text across line/page fragmentation is a multiset equality over runtime layout values and resume stacks; no clause is visible in the shape of the code (DESIGN.md section 5)",
- "C13": "grid consistency is a set of equalities/inequalities between computed float positions after a width-distribution algorithm; the only structural clauses (two-keyword vocabularies) are too small to stand for the property (DESIGN.md section 5)",
 }
 NOT_YET = "static rules for this property are designed (DESIGN.md section 4) but not built yet in this tree; not claimed until they run clean and fire on their mutants"
 
